@@ -310,8 +310,10 @@ Rejects(r, h) ==
         c \in {x \in IllCalls \cup Calls(r, h) : IsErr(CallResult(x, r))}}
 
 \* a sort without slice is never silently buried: binary calls on it are refused
+\* (a sorted join IDENTITY - one row, no columns - joined with a relation of another engine just yields
+\* that relation since the fix of F24: nothing is buried)
 OrderLossRefused ==
-    (rel.k = "sel" /\ HasSort(rel) /\ ~HasSlice(rel)) =>
+    (rel.k = "sel" /\ HasSort(rel) /\ ~HasSlice(rel) /\ ~JoinIdentity(rel)) =>
         \A c \in BinaryCalls(rel) : IsErr(CallResult(c, rel))
 
 (* ---------------- emission ---------------- *)
